@@ -76,7 +76,7 @@ TABLE = {
    note='arrival order = order of the real appends; the instant of the final end is taken at the assignment connected=False',
    tech='runtime monitoring: controlled scheduler (bounded-exhaustive + randomized), unique tokens, order/exactly-once trace oracle'),
  'C02': dict(cat='exploration',
-   text='a real Client/AsyncClient connected to a real Server/AsyncServer through a bridge in which every frame is re-encoded by the real engine.io framing (polling payload with base64 attachments, or websocket packets with raw binary), rotating over all 8 configurations {threaded, asyncio} x {default, msgpack} x {polling, websocket}; generated messages in both directions via emit, emit+callback, call() and send() with random event names, JSON+bytes payloads (tuple / None / other at top level) and handler return values; handler arguments, callback arguments and call() results compared with the argument rule; bursts of up to 50 consecutive emits checked for order; overlapping callbacks (several emits with callbacks outstanding at once on the asyncio pairing, handlers finishing out of order, a further emit meanwhile): every callback gets the value returned by its own handler exactly once',
+   text='(fidelity anchor, ~12% of the budget: an unmodified Client with python-engineio\'s real threaded long-polling client against an unmodified threaded Server behind a wsgiref server on 127.0.0.1, emit+callback and call() both ways) a real Client/AsyncClient connected to a real Server/AsyncServer through a bridge in which every frame is re-encoded by the real engine.io framing (polling payload with base64 attachments, or websocket packets with raw binary), rotating over all 8 configurations {threaded, asyncio} x {default, msgpack} x {polling, websocket}; generated messages in both directions via emit, emit+callback, call() and send() with random event names, JSON+bytes payloads (tuple / None / other at top level) and handler return values; handler arguments, callback arguments and call() results compared with the argument rule; bursts of up to 50 consecutive emits checked for order; overlapping callbacks (several emits with callbacks outstanding at once on the asyncio pairing, handlers finishing out of order, a further emit meanwhile): every callback gets the value returned by its own handler exactly once',
    note='network replaced below engine.io; thread-per-message dispatch (threaded engine.io client; threaded server with async_handlers=True) defines no order and is not judged for it; 64-bit integers, finite floats, no lone surrogates',
    tech='runtime monitoring: end-to-end differential oracle (argument rule) over real client and server objects with unique sequence numbers'),
  'C14': dict(cat='exploration',
